@@ -130,6 +130,15 @@ def r_reserved_class_stable(rep, prog):
                 c = tm.operand(b.term(s)["discr"])
                 if c[0] == "call" and c[1] == TR + "reserved" and T.canon(c[2][0]) == ("p", "self") and lib.bool_edge_polarity(b, s, d) is False:
                     ok, why = True, "guarded by !self.reserved()"
+            if not ok:
+                # path-sensitive: on every path to the site, a self.reserved() call returned false
+                rcalls = [rb for rb, rt in b.calls() if callee_name(rt["callee"]) == TR + "reserved"
+                          and T.canon(tm.operand(rt["args"][0])) == ("p", "self")]
+                if rcalls:
+                    ps = PathSens(b, prog, track=lambda nm: nm == TR + "reserved")
+                    sts = ps.states_at(bi)
+                    if sts and all(any(env.get(("c", rb)) == 0 for rb in rcalls) for _, env in sts):
+                        ok, why = True, "!self.reserved() holds on every path to the site"
             for x in T.walk(recv):
                 if x[0] == "call" and x[1] == TR + "with_reserved" and T.const_val(x[2][1]) == 0:
                     ok, why = True, "applied to the entry after with_reserved(false)"
